@@ -236,6 +236,16 @@ CsiManager &QXmppOutgoingClient::csiManager() const
 /// Attempts to connect to the XMPP server.
 void QXmppOutgoingClient::connectToHost()
 {
+    // A (re)connect starts from an unconnected socket. QSslSocket::connectToHost() on a socket that
+    // is still connecting or connected switches it back to unencrypted mode before
+    // QAbstractSocket refuses the call: the old TCP connection and session stay, and everything
+    // written afterwards goes over the wire in clear (second connectToServer() call, or the
+    // reconnect timer after a socket error that did not close the connection, e.g. a TLS
+    // close_notify without TCP close).
+    if (socket()->state() != QAbstractSocket::UnconnectedState) {
+        socket()->abort();
+    }
+
     // if a host for resumption is available, connect to it
     if (d->c2sStreamManager.hasResumeAddress()) {
         auto [host, port] = d->c2sStreamManager.resumeAddress();
